@@ -223,10 +223,20 @@ def check_wall(chk, exe, db, dbdir, policy, label, nrandom, full=False, grid=60)
             ncalls += r['n']
             if r['normfail']:
                 chk.violation('%s:%s:not-normalised' % (label, n), 'forComponents result is not normalised: %s' % r['normfail'], {'zone': n, 'detail': r['normfail']})
+    nwin = judge_wall(chk, label, db, work, model_path, names, wobs, policy, 'norm')
+    chk.add(**{'forComponents_calls_' + label: ncalls, 'windows_' + label: nwin, 'zones_' + label: len(names)})
+    ex = next((n for n in names if len(wobs[n]) > 3), names[0])
+    chk.sample({'zone': ex, 'db': db, 'policy': policy, 'window': wobs[ex][0] if wobs[ex] else None})
+    return wobs
+
+
+def judge_wall(chk, label, db, work, model_path, names, wobs, policy, mode):
+    """TLC judges recorded wall-clock resolutions {zone: [{w0, w1, pieces}]} against TzSem.tla Allowed(w, policy)"""
+    wobs = dict(wobs)
     wobs['__none__'] = []
-    wall_path = os.path.join(work, 'wall.json')
+    wall_path = os.path.join(work, 'wall-%s.json' % label.replace('/', '_').replace(':', '_'))
     json.dump(wobs, open(wall_path, 'w'))
-    tres = common.run_tlc('TzSem', 'TzSem_wall.cfg', env={'TZ_MODEL': model_path, 'TZ_WALL': wall_path, 'TZ_POLICY': policy, 'TZ_OBS': wall_path}, timeout=3000)
+    tres = common.run_tlc('TzSem', 'TzSem_wall.cfg', env={'TZ_MODEL': model_path, 'TZ_WALL': wall_path, 'TZ_POLICY': policy, 'TZ_OBS': wall_path, 'TZ_WALLMODE': mode}, timeout=3000)
     common.tlc_must_pass(tres, 'TzSem wall (%s)' % label)
     verdicts = {v['wzone']: v for v in common.tlc_prints(tres.out) if isinstance(v, dict) and 'wzone' in v}
     if set(verdicts) != set(names):
@@ -243,7 +253,4 @@ def check_wall(chk, exe, db, dbdir, policy, label, nrandom, full=False, grid=60)
                               v['nbad'], f[2], f[3], f[4], f[5], f[6], v['want'], policy),
                           {'zone': n, 'db': db, 'wall_seconds_from_2000': w, 'got': f[4:], 'allowed': v['want']})
     chk.add(states=tres.distinct, transitions=tres.generated, traces_validated_against_impl=len(names))
-    chk.add(**{'forComponents_calls_' + label: ncalls, 'windows_' + label: nwin, 'zones_' + label: len(names)})
-    ex = next((n for n in names if len(wobs[n]) > 3), names[0])
-    chk.sample({'zone': ex, 'db': db, 'policy': policy, 'window': wobs[ex][0] if wobs[ex] else None})
-    return wobs
+    return nwin
